@@ -2,7 +2,7 @@
 import sys, os
 sys.path.insert(0, os.path.dirname(os.path.abspath(__file__)))
 from maps_common import *
-import mainloop, c16, c10
+import mainloop, c16, c10, field_common
 from mainloop import OPtr, uc_run, show
 from h5rec import H5Recorder
 
@@ -128,6 +128,15 @@ def job_txt_loader(res, maxit):
     res.obs.append(Ob('makePSFromTXT: every index passed to the grid\'s operator[] lies in [0, grid size) for arbitrary file contents (lround result an arbitrary 64-bit integer; %d index events on %d paths)' % (nidx, len(paths)),
                       'holds' if bad is None and nidx > 0 else 'violated', key='txt-loader-index', cex=bad))
     uninit_obs(res, 'makePSFromTXT (up to %d particles, extraction may fail at any point)' % maxit, paths, 'txt-loader-uninit')
+    # the loader creates the grid with the size main passes in (main's route check for start files relies on it)
+    okset = 0
+    for p in paths:
+        for e in p.events:
+            d = dm.get(e[0], e[0]) if isinstance(e[0], str) else ''
+            if 'PhaseSpace::setSize' in d and z3.is_expr(e[1][0]):
+                sv = z3.Solver(); [sv.add(c) for c in p.pc]; sv.add(ps_size >= 0, ps_size < (1 << 32)); sv.add(z3.ZeroExt(32, e[1][0]) != ps_size if e[1][0].size() == 32 else e[1][0] != ps_size); res.queries += 1
+                if sv.check() == z3.unsat: okset += 1
+    res.obs.append(Ob('makePSFromTXT: the static grid size is set to the size argument on every path (%d of %d paths)' % (okset, len(paths)), 'holds' if okset == len(paths) else 'violated', key='txt-loader-setsize'))
 
 def job_impedance_reader(res, maxit):
     bld = loaders_build(); mod = load_module(bld, ['Impedance'])
@@ -183,8 +192,135 @@ def job_tracks_index(res, n, nb, N, npart):
     res.obs.append(Ob('HDF5File::appendTracks n=%d, %d particles anywhere in [0,n-1]^2: grid-to-physical conversion reads only inside the axis arrays (%d paths)' % (n, npart, len(out)), 'holds' if not err else 'violated', key='tracks-index',
                       detail=str(err[0]) if err else ''))
 
+
+def job_upper_power_of_two(res):
+    """summary used by the set-up slice, from the real IR of vfps::upper_power_of_two in bit-vector arithmetic: v <= r < 2v and r a power of two for 1 <= v <= 2^62"""
+    import mainsetup as ms
+    bld = ms.setup_build(); mod = load_module(bld, ms.SETUP_MODS)
+    fn = find_fn(mod, 'upper_power_of_two'); ex = Exec(mod, Snapshot(), RealDom()); st = State(); v = z3.BitVec('v', 64); st.pc += [z3.UGE(v, 1), z3.ULE(v, 1 << 62)]
+    s1 = ex.run1(st, fn, [v]); r = s1.retval; res.funcs[fn] = fn_lines(mod, fn); res.paths += 1; res.instrs += s1.nins
+    prove(res, 'upper_power_of_two(v) for every 1 <= v <= 2^62: v <= r < 2v and r is a power of two (64-bit bit-vector semantics of the real code)', s1.pc, z3.Or(z3.ULT(r, v), z3.UGE(r, 2 * v), (r & (r - 1)) != 0), key='pow2-summary')
+    witness(res, 'upper_power_of_two is not the identity', s1.pc, r != v)
+
+def job_field_precondition(res, n):
+    """what the constructed ElectricField needs from main: on small concrete worlds around the boundary, padBunchProfiles/wakePotential/updateCSR stay inside their buffers
+    exactly when (largest bucket)*spacing + grid width <= padded length (the executor's allocation table decides, not a formula)"""
+    bld = field_common.field_build(); mod = load_module(bld, field_common.FIELD_MODS); agree = 0; bad = []
+    for bk in ((0,), (1, 0), (2, 0), (2,), (3, 1)):
+        for sp in (n, n + 1, n + 2):
+            need = max(bk) * sp + n
+            for N in sorted({need - 1, need, need + 1}):     # near the boundary: an overrun by a few cells ends in the gap between allocations (the table has no provenance: a far overrun may land in another object)
+                if N < n: continue
+                snap, R, pre, plans, calib = field_common.field_world(bld, n, N, sp, bk)
+                for fnm in ('e_pad', 'e_wake'):
+                    ex = Exec(mod, snap, RealDom(), {'fftwf_execute': field_common.UFFFT(plans)})
+                    try: s1 = ex.run1(State(), fnm, [R['field']]); safe = True; res.instrs += s1.nins
+                    except MemError: safe = False
+                    res.paths += 1
+                    if safe == (need <= N): agree += 1
+                    else: bad.append((n, N, sp, bk, fnm, safe))
+    res.obs.append(Ob('ElectricField (grid %d): %d concrete worlds around the boundary - buffer accesses of padBunchProfiles/wakePotential stay inside the allocations exactly when max(bucket)*spacing + grid <= padded length' % (n, agree + len(bad)),
+                      'holds' if not bad else 'inconclusive', key='field-precondition', detail=str(bad[:3])))
+
+
+def job_start_grid(res, n):
+    """C17 (initial distributions of the wrong size): on every route by which main obtains its first grid - built from the options, or read from a start file by one of the
+    loaders - the static grid width every later buffer relies on equals the configured grid size when the fields and maps are built, or main stops before."""
+    import mainsetup as ms
+    bld = ms.setup_build(); mod = load_module(bld, ms.SETUP_MODS); f = mod.funcs['main']; res.funcs['main'] = fn_lines(mod, 'main')
+    sites = [(b, ins['callee'][1]) for b in f.order for ins in f.blocks[b] if ins['op'] in ('call', 'invoke') and ins['callee'][0] == 'global' and ('makePSFrom' in ins['callee'][1] or 'PhaseSpace7setSize' in ins['callee'][1])]
+    dm = mainloop.demangle({x for _, x in sites})
+    if len(sites) < 2: res.obs.append(Ob('main has a route that builds the grid from the options and at least one loader route', 'inconclusive', detail=str(sites), key='setup-engine')); return
+    NX = '@_ZN4vfps10PhaseSpace2nxE'
+    for blk, callee in sites:
+        route = dm.get(callee, callee).split('(')[0]
+        paths, ended, info = ms.explore_setup(mod, n, 1, {'current0'}, True, via=blk)
+        res.paths += len(paths) + len(ended); res.instrs += sum(s.nins for s in paths + ended)
+        good = [s for s in paths if s.extra.get('via_done')]
+        errs = [s.why for s in ended if s.kind == 'error']
+        if errs or not good:
+            stopped = [s for s in ended if s.kind in ('returned',) and s.extra.get('via_done')]
+            if not errs and stopped:
+                res.obs.append(Ob('route %s: main returns before any field or map is built' % route, 'holds', key='start-grid-size')); continue
+            res.obs.append(Ob('route %s: a path through it reaches the field constructions' % route, 'inconclusive', detail=str(errs[:2]), key='setup-engine')); continue
+        for s in good:
+            told = None
+            for e in s.events:
+                if isinstance(e[0], str) and e[0] == callee:
+                    ints = [a for a in e[1] if isinstance(a, int) and a < (1 << 32)]
+                    told = ints[0] if ints else None
+            nx = next((v for k_, v in s.extra.get('lazy', {}).items() if isinstance(k_[0], str) and 'PhaseSpace2nxE' in k_[0] and k_[2] == 4 and z3.is_expr(v)), None)
+            if 'setSize' in route or (told is not None and told == n and 'TXT' in route):
+                ok = told == n
+                res.obs.append(Ob('route %s: the grid is created with the configured size (%s == %d)' % (route, told, n), 'holds' if ok else 'violated', key='start-grid-size', cex=None if ok else {'replay': 'setup', 'route': route, 'told': told, 'n': n})); continue
+            if nx is None:
+                res.obs.append(Ob('route %s (grid size taken from the file): main compares the resulting grid width with the configured size before it builds fields and maps' % route, 'violated', key='start-grid-size',
+                                  detail='PhaseSpace::nx is never read between the loader and the field constructions', cex={'replay': 'setup', 'route': route, 'n': n, 'file_grid': n + 1})); continue
+            prove(res, 'route %s (grid size taken from the file): when fields and maps are built the grid width equals the configured size %d' % (route, n), s.pc, z3.BV2Int(nx) != n, key='start-grid-size',
+                  cex_fn=lambda m, route=route, nx=nx: {'replay': 'setup', 'route': route, 'n': n, 'file_grid': mval(m, nx)})
+
+def job_padded_lengths(res, n, nb, prefer):
+    """C17 mechanism 1: the lengths main computes (src/main.cpp: spacing_bins, padded_bins, spaced_bins, filling pattern) always satisfy what the two ElectricField objects need"""
+    import mainsetup as ms
+    bld = ms.setup_build(); mod = load_module(bld, ms.SETUP_MODS); res.funcs['main'] = fn_lines(mod, 'main')
+    tracked = {'current%d' % i for i in range(nb)}
+    for rnd in range(4):
+        paths, ended, info = ms.explore_setup(mod, n, nb, tracked, prefer); new = set()
+        for s in paths:
+            for c in ms.field_calls(mod, s, info): new |= ms.syms_of([c['N'], c['spacing']])
+        if new <= tracked: break
+        tracked |= new
+    res.paths += len(paths) + len(ended); res.instrs += sum(s.nins for s in paths + ended)
+    errs = [s.why for s in ended if s.kind == 'error']
+    if errs or not paths:
+        res.obs.append(Ob('set-up slice n=%d, %d buckets: every path is executable by the engine and reaches the field constructions' % (n, nb), 'inconclusive', detail=str(errs[:2]) + ' reached=%d' % len(paths), key='setup-engine')); return
+    seen = set(); nfields = 0
+    for s in paths:
+        calls = ms.field_calls(mod, s, info)
+        sig = (tuple(str(c) for c in s.pc if ms.syms_of(c) & tracked), tuple((str(c['N']), str(c['spacing']), str(c['buckets'])) for c in calls))
+        if sig in seen: continue
+        seen.add(sig)
+        for c in calls:
+            nfields += 1
+            if c['N'] is None or c['spacing'] is None or (c['buckets'] is None and nb > 0 and not (isinstance(c['spacing'], int) and c['spacing'] == 0)):
+                # no bunch at all: main constructs the fields with an empty bucket list
+                if c['buckets'] is None and c['N'] is not None: c['buckets'] = []
+                else:
+                    res.obs.append(Ob('set-up slice: padded length, spacing and bucket list of an ElectricField construction can be traced to their definitions', 'inconclusive', detail=str({k: str(v)[:80] for k, v in c.items()}), key='setup-engine')); continue
+            if c['grid'] is not None and c['grid'] != n:
+                res.obs.append(Ob('the grid width given to PhaseSpace::setSize is the configured grid size', 'violated' if isinstance(c['grid'], int) else 'inconclusive', detail=str(c['grid']), key='setup-grid')); continue
+            N = ms.to_int(c['N']); sp = ms.to_int(c['spacing']); bk = [b for b in (c['buckets'] or []) if isinstance(b, int)]
+            if len(bk) != len(c['buckets'] or []): res.obs.append(Ob('bucket numbers are concrete on every path', 'inconclusive', key='setup-engine')); continue
+            multi = not (isinstance(c['spacing'], int) and c['spacing'] == 0)
+            # documented domain: buckets do not overlap - the bunch spacing, in grid cells and before rounding, is at least the grid width (irrelevant for a single bucket);
+            # buffers of 2^31 cells and more are outside (allocation failure)
+            raw = info['ex'].intarg.get(str(sp)) if z3.is_const(sp) else None
+            dom = [] if not (multi and nb > 1) else ([raw[1] >= n] if raw else [sp >= n])
+            assume = list(s.pc) + list(s.extra.get('late', [])) + dom + [N < (1 << 31)]
+            need = [b * sp + n for b in bk] if multi else [z3.IntVal(n)]
+            goal_neg = z3.Or(*[nd > N for nd in need]) if need else z3.BoolVal(False)
+            lifted, ranges = ms.lift_all(assume + [goal_neg]); assume_l, goal_l = lifted[:-1] + ranges, lifted[-1]
+            (allf, names) = ms.abstract_nonlinear(assume_l + [goal_l])
+            def cex(m, c=c, sp=sp, N=N, bk=bk, s=s): return {'replay': 'setup', 'n': n, 'buckets': bk, 'filling_slots': nb, 'spacing_bins': mval(m, sp), 'padded_length': mval(m, N), 'needs': max([b * mval(m, sp) + n for b in bk] + [n]),
+                                                        'ints': {str(d): mval(m, d) for d in m.decls() if False}, 'model': {str(d): str(m[d])[:40] for d in m.decls() if str(d).startswith(('nl', 'round', 'ceil', 'pow2', 'ret__ZNK4vfps14ProgramOptions'))}}
+            # prefer a small counterexample (replayable on a concrete ElectricField of the harness): same query with small lengths first
+            small = z3.Solver(); small.set('timeout', 20000); [small.add(a_) for a_ in allf]; small.add(ms.abstract_nonlinear(ms.lift_all([sp <= 64, N <= 4096])[0])[0] if False else z3.And(sp <= 64, N <= 4096)); res.queries += 1
+            if small.check() == z3.sat:
+                m = small.model(); c_ = cex(m)
+                res.obs.append(Ob('main n=%d, %d buckets, filled %s, field with %s: the padded length covers the last bucket (bucket*spacing + grid <= length)' % (n, nb, bk, 'bucket spacing' if multi else 'no spacing (radiation)'), 'violated', detail=str(c_)[:300], cex=c_, key='padded-length-covers-buckets')); continue
+            prove(res, 'main n=%d, %d buckets, filled %s, field with %s: for every bunch spacing%s, padding and rounding option the padded length covers the last bucket (bucket*spacing + grid <= length)' % (n, nb, bk, 'bucket spacing' if multi else 'no spacing (radiation)', ' >= grid' if multi and nb > 1 else ''),
+                  allf[:-1], allf[-1], key='padded-length-covers-buckets', cex_fn=cex, timeout_ms=60000)
+    witness(res, 'set-up slice n=%d nb=%d: %d distinct tracked paths, %d field constructions checked (%d guided decisions, %d tracked forks)' % (n, nb, len(seen), nfields, info['stats']['guided'], info['stats']['tracked_forks']), [], z3.BoolVal(nfields >= 2))
+
 def replayer():
     def rp(path, c):
+        if c.get('replay') == 'setup' and 'padded_length' in c and c['padded_length'] <= 4096 and c['spacing_bins'] <= 64 and c.get('buckets'):
+            # the lengths main computes, given to the real ElectricField (native construction in the harness), then padBunchProfiles from its IR under the allocation table
+            bld = field_common.field_build(); mod = load_module(bld, field_common.FIELD_MODS)
+            snap, R, pre, plans, calib = field_common.field_world(bld, c['n'], int(c['padded_length']), int(c['spacing_bins']), tuple(c['buckets']))
+            ex = Exec(mod, snap, RealDom(), {'fftwf_execute': field_common.UFFFT(plans)})
+            try: ex.run1(State(), 'e_pad', [R['field']]); return (False, 'ElectricField(grid %d, padded length %d, spacing %d, buckets %s): padBunchProfiles stays inside its buffers' % (c['n'], c['padded_length'], c['spacing_bins'], c['buckets']))
+            except MemError as e: return (True, 'ElectricField built natively with the lengths main computes (grid %d, padded length %d, spacing %d, buckets %s): padBunchProfiles %s' % (c['n'], c['padded_length'], c['spacing_bins'], c['buckets'], e))
         return (True, 'out-of-bounds / uninitialised access located by the executor\'s allocation table; no sanitizer build is used for replay: %s' % str(c)[:200])
     return rp
 
@@ -194,15 +330,18 @@ def main(tier):
     jobs = [(job_kick_beyond, (8, 2, it, ax, r)) for it in (2, 4) for ax in (0, 1) for r in (0, 7)]
     jobs += [(job_impedance_add, a) for a in ((8, 8), (8, 12), (8, 5), (8, 2), (9, 4))]
     jobs += [(job_txt_loader, (2,)), (job_impedance_reader, (2,)), (job_h5_reader, ()), (job_tracks_index, (4, 1, 8, 2))]
+    jobs += [(job_upper_power_of_two, ()), (job_field_precondition, (4,)), (job_start_grid, (4,))]
+    jobs += [(job_padded_lengths, (n, nb, pf)) for n, nb in ((4, 4), (5, 5), (4, 1), (8, 3)) for pf in (True, False)]
     if tier != 'quick':
         jobs += [(job_kick_beyond, (n, nb, it, ax, r)) for n, nb in ((6, 3), (9, 1)) for it in (1, 2, 3, 4) for ax in (0, 1) for r in range(n)]
+        jobs += [(job_padded_lengths, (n, nb, pf)) for n, nb in ((16, 6), (9, 7), (32, 4), (33, 5)) for pf in (True, False)] + [(job_field_precondition, (5,)), (job_start_grid, (9,))]
         jobs += [(job_txt_loader, (3,)), (job_impedance_reader, (3,)), (job_tracks_index, (5, 2, 12, 2)), (job_tracks_index, (7, 1, 8, 1))]
     chk.bounds = {'kick maps': 'grids 8 (6, 9), one row with displacement in [-2n, 2n] (all integer parts) + a particle anywhere on the grid', 'impedance tables': 'internal length 8/9 vs table length 1..12',
                   'text loaders': 'under-constrained runs of makePSFromTXT and Impedance::readData: up to 2 (3) loop passes, each extraction may succeed with an arbitrary value or fail', 'HDF5 start file': 'arbitrary rank and extents returned by the library',
-                  'scope': 'memory safety is decided for these units within these bounds, not for the program as a whole; in addition every load/store of every symbolic run of the other checks is bounds-checked against the allocation table'}
+                  'set-up arithmetic': 'main from getBunchCurrents to the ElectricField constructions: grid 4,5,8 (thorough: up to 33), 1-5 (7) bucket slots with every filling pattern, every real bunch spacing >= grid, padding, rounding option', 'scope': 'memory safety is decided for these units within these bounds, not for the program as a whole; in addition every load/store of every symbolic run of the other checks is bounds-checked against the allocation table'}
     chk.assumptions = ['allocation-granular checking (like ASan without red zones inside objects); reads of never-written stack bytes are tracked for the loader runs only',
                        'std::istream::operator>> either stores a value or leaves the target untouched (sentry failure at end of input)', 'fptoui of a negative/huge value is language-level UB that no memory checker confirms: listed in the log, not reported as a violation',
-                       'boost, HDF5, iostream internals, FFTW, allocation failure, stack overflow are outside', 'padded-length arithmetic of main (bucket spacing vs padded size) is not decided here']
+                       'boost, HDF5, iostream internals, FFTW, allocation failure, stack overflow are outside', 'padded-length arithmetic of main: double arithmetic is taken as exact real arithmetic (the repaired code takes an integer maximum, so the guarantee does not depend on rounding); buffers of 2^31 cells and more, fp-to-int conversions out of range and allocation failure are outside', 'set-up slice of main: decisions that do not involve the filling pattern, the spacing or the padding are taken one way (once preferring each side), steered to the field constructions; objects main initialised before the slice hold arbitrary values']
     chk.stubs = ['iostream / HDF5 calls in the loader runs: events', 'lround: arbitrary 64-bit result', 'ifstream constructor: libstdc++ virtual-base layout']
     chk.replayer = replayer()
     chk.add(run_jobs(jobs, budget=900 if tier == 'quick' else 3000))
